@@ -33,7 +33,7 @@ ASSUMPTIONS = [
     "covariance estimator, to every order (for _dummy1d this is the exact derivative of the normalised weights)",
     "objective 'lin' = <v, y> with constant v; 'sq' = <v, y*y> (cotangent depends on the result); second order "
     "differentiates a fixed combination S = sum <r, first-order gradients> again",
-    "tolerance 1e4 * nsamples * eps * M with M a per-sample magnitude bound computed by the harness",
+    "tolerance 1e3 * nsamples * eps * M with M a per-sample magnitude bound computed by the harness",
     "mh: only seed-independent facts are judged (counts, weights, linearity, reproducibility under equal seed, "
     "estimator identity on the logged samples); the seed is set immediately before each library call",
 ]
@@ -94,7 +94,8 @@ def cases(tier, seed):
         for fo in FOUTS:
             for (order, loss) in ORDERS:
                 c = dict(sc)
-                c.update({"fout": fo, "fkind": "explicit", "pkind": "explicit", "unused": "none", "order": order, "loss": loss})
+                c.update({"fout": fo, "fkind": "explicit", "pkind": "explicit", "unused": "none", "linear": "none",
+                          "order": order, "loss": loss})
                 add(c)
     # block B: every placement of the parameters
     for sc in _sampler_cfgs_B(tier):
@@ -113,7 +114,15 @@ def cases(tier, seed):
                             orders = ORDERS
                         for (order, loss) in orders:
                             c = dict(sc)
-                            c.update({"fout": fo, "fkind": fk, "pkind": pk, "unused": un, "order": order, "loss": loss})
+                            c.update({"fout": fo, "fkind": fk, "pkind": pk, "unused": un, "linear": "none", "order": order, "loss": loss})
+                            add(c)
+                    # f / log p linear in a parameter: its second-order gradient is zero, not an error
+                    for lin in ("f", "p"):
+                        if (lin == "f" and fk == "absent") or (lin == "p" and pk == "absent"):
+                            continue
+                        for loss in ("lin", "sq"):
+                            c = dict(sc)
+                            c.update({"fout": fo, "fkind": fk, "pkind": pk, "unused": "none", "linear": lin, "order": 2, "loss": loss})
                             add(c)
     return out
 
@@ -121,11 +130,17 @@ def cases(tier, seed):
 # ------------------------------------------------------------------ the functions
 
 F_VALS = {"a": 0.8, "b": -1.2}
-P_VALS = {"w": 0.9, "q": 0.3}
+P_VALS = {"w": 0.9, "q": 0.55}
 
 
-def f_math(fout, x, a, b):
+def f_math(fout, x, a, b, linear=False):
     xx = (x * x).sum()
+    if linear:      # linear in (a, b), no cross term: d f / d theta does not depend on theta
+        if fout == "scalar":
+            return b * torch.cos(x).sum() + a * xx
+        if fout == "vector":
+            return torch.stack([b * torch.cos(x).sum(), a * xx, a + b + 0.0 * xx])
+        return (b * torch.sin(x).sum(), torch.stack([a * xx, b * torch.cos(x).sum()]))
     if fout == "scalar":
         return b * torch.cos(a * x).sum() + a * a * xx
     if fout == "vector":
@@ -133,9 +148,11 @@ def f_math(fout, x, a, b):
     return (b * torch.sin(a * x).sum(), torch.stack([a * xx, b * b * torch.cos(x).sum()]))
 
 
-def logp_math(x, w, q):
+def logp_math(x, w, q, linear=False):
     x2 = x * x
-    return -x2.sum() / (2.0 * w * w) - q * (x2 * x2).sum() / 4.0
+    if linear:      # linear in q (an exponential-family natural parameter)
+        return -x2.sum() / (2.0 * w * w) - q * (x2 * x2).sum() / 4.0
+    return -x2.sum() / (2.0 * w * w) - q * q * (x2 * x2).sum() / 4.0
 
 
 COT = {"scalar": [torch.tensor(0.8, dtype=torch.float64)],
@@ -215,6 +232,7 @@ def run_case(cfg):
     ns = cfg["nsamples"]
     nbo = cfg.get("nburnout", 0)
     fout, fk, pk, unused, order, loss = cfg["fout"], cfg["fkind"], cfg["pkind"], cfg["unused"], cfg["order"], cfg["loss"]
+    flin, plin = cfg.get("linear") == "f", cfg.get("linear") == "p"
     eps = float(torch.finfo(torch.float64).eps)
     viol = []
     obs = {}
@@ -243,11 +261,11 @@ def run_case(cfg):
 
     def f_body(x, named, rest):
         logs["f"].append((phase[0], _xkey(x)))
-        return f_math(fout, x, named["a"], named["b"])
+        return f_math(fout, x, named["a"], named["b"], flin)
 
     def p_body(x, named, rest):
         logs["p"].append((phase[0], _xkey(x)))
-        return logp_math(x, named["w"], named["q"])
+        return logp_math(x, named["w"], named["q"], plin)
 
     ffcn, fpar, fmod = _make_callable(fk, ["a", "b"], [fa, fb], f_body, un_t if unused == "f_held" else None)
     pfcn, ppar, pmod = _make_callable(pk, ["w", "q"], [pw, pq], p_body, un_t if unused == "p_held" else None)
@@ -357,7 +375,7 @@ def run_case(cfg):
         t = tg * 0.5 * (tu - tl) + 0.5 * (tu + tl)
         xr = np.tan(t)
         with torch.no_grad():
-            lpv = np.asarray([float(logp_math(torch.tensor(float(v), dtype=torch.float64), pw, pq)) for v in xr])
+            lpv = np.asarray([float(logp_math(torch.tensor(float(v), dtype=torch.float64), pw, pq, plin)) for v in xr])
         u = wg * 0.5 * (tu - tl) / np.cos(t) ** 2 * np.exp(lpv)
         wr = u / u.sum()
         xs_ = np.asarray([float(s) for s in samples])
@@ -365,7 +383,7 @@ def run_case(cfg):
         if np.any(np.abs(xs_ - xr) > tolx):
             viol.append(V("dummy1d-abscissae", {"max_diff": float(np.max(np.abs(xs_ - xr)))}))
         # weights: absolute deviations summed (Gauss weights are only accurate to ~n eps in the aggregate)
-        lpsens = 2.0 + (1 + xr * xr) * (abs(tl) + abs(tu)) * (2 * np.abs(xr) + np.abs(xr) / 0.81 + 0.3 * np.abs(xr) ** 3)
+        lpsens = 2.0 + (1 + xr * xr) * (abs(tl) + abs(tu)) * (2 * np.abs(xr) + np.abs(xr) / 0.81 + 0.6 * np.abs(xr) ** 3)
         excess = float(np.sum(np.maximum(0.0, np.abs(weights - wr) - 64 * eps * wr * lpsens)))
         obs["d1w"] = rnd(excess / (64 * ns * eps), 2)
         if excess > 64 * ns * eps:
@@ -421,13 +439,13 @@ def run_case(cfg):
     def surrogate(with_p):
         """R = sum_i W_i f(x_i); W_i reweighted by exp(log p - stopgrad log p) when log p has differentiable parameters"""
         if with_p:
-            lps = torch.stack([logp_math(s, pw, pq).reshape(()) for s in samples])
+            lps = torch.stack([logp_math(s, pw, pq, plin).reshape(()) for s in samples])
             rho = torch.exp(lps - lps.detach())
             W = wt * rho
             W = W / W.sum()
         else:
             W = wt
-        fs = [f_math(fout, s, fa, fb) for s in samples]
+        fs = [f_math(fout, s, fa, fb, flin) for s in samples]
         if is_tuple:
             return [sum(W[i] * fs[i][c] for i in range(ns)) for c in range(len(cot))]
         return [sum(W[i] * fs[i] for i in range(ns))]
@@ -435,7 +453,7 @@ def run_case(cfg):
     R0 = surrogate(False)
     worst = 0.0
     with torch.no_grad():
-        fabs = [f_math(fout, s, fa, fb) for s in samples]
+        fabs = [f_math(fout, s, fa, fb, flin) for s in samples]
         for c in range(len(cot)):
             mag = sum(abs(weights[i]) * (fabs[i][c] if is_tuple else fabs[i]).abs() for i in range(ns))
             tol = 16 * (ns + 2) * eps * mag + 1e-300
@@ -477,8 +495,12 @@ def run_case(cfg):
     g1 = list(o1.value)
     obs["none1"] = [g is None for g in g1]
     off = [k for (ph, k) in logs["f"] if ph == "bwd1" and k not in set(skeys)]
+    off_sample = bool(off)
+    obs["bwd1_p_calls"] = sum(1 for (ph, k) in logs["p"] if ph == "bwd1")
+    obs["bwd1_step_calls"] = sum(1 for (ph, k) in logs["step"] if ph == "bwd1")
     if off:
-        viol.append(V("backward-evaluates-f-off-sample", {"count": len(off)}, phase="backward1"))
+        viol.append(V("backward-evaluates-f-off-sample", {"count": len(off), "step_calls_in_backward": obs["bwd1_step_calls"],
+                                                          "logp_calls_in_backward": obs["bwd1_p_calls"]}, phase="backward1"))
 
     # magnitude bound M from per-sample quantities
     used = [t for (_, t, role) in inputs if role != "unused"]
@@ -488,7 +510,7 @@ def run_case(cfg):
     mF = mS = mK = 0.0
     per = []
     for i, s in enumerate(samples):
-        fv = f_math(fout, s, fa, fb)
+        fv = f_math(fout, s, fa, fb, flin)
         fl = torch.cat([t.reshape(-1) for t in (fv if is_tuple else [fv])])
         F = float(fl.detach().abs().sum())
         dF = 0.0
@@ -498,7 +520,7 @@ def run_case(cfg):
                 dF += sum(float(g.abs().sum()) for g in gs if g is not None)
         S = 0.0
         if pk != "absent":
-            gs = torch.autograd.grad(logp_math(s, pw, pq), [pw, pq], allow_unused=True)
+            gs = torch.autograd.grad(logp_math(s, pw, pq, plin), [pw, pq], allow_unused=True)
             S = sum(float(g.abs().sum()) for g in gs if g is not None)
         x2 = float((s * s).sum())
         K = 1.0 + x2 + x2 * x2
@@ -511,7 +533,7 @@ def run_case(cfg):
     ymax = max(1.0, max(float(t.detach().abs().max()) for t in ys))
     if loss == "sq":
         M = M * 2 * ymax * (1 + mF)
-    tol1 = 1e4 * ns * eps * M * cmax
+    tol1 = 1e3 * ns * eps * M * cmax
     obs["M"] = rnd(M, 3)
 
     Rg = surrogate(pk != "absent")
@@ -536,7 +558,7 @@ def run_case(cfg):
         worst = max(worst, e / tol1)
         if not e <= tol1:
             viol.append(V("grad-mismatch:%s-param:order1" % role, {"wrt": lab, "observed": rnd(gv, 12), "reference": rnd(refv, 12),
-                                                                  "tol": tol1}, wrt=lab))
+                                                                  "tol": tol1}, wrt=lab, off_sample=off_sample))
     obs["r1"] = rnd(worst, 2)
     if order == 1:
         return {"viol": viol, "obs": obs, "status": "violation" if viol else "ok", "n": nexec}
@@ -574,6 +596,10 @@ def run_case(cfg):
         return {"viol": viol, "obs": obs, "status": "exception", "n": nexec}
     g2 = list(o2.value)
     obs["none2"] = [g is None for g in g2]
+    off2 = [k for (ph, k) in logs["f"] if ph == "bwd2" and k not in set(skeys)]
+    if off2:
+        off_sample = True
+        viol.append(V("backward-evaluates-f-off-sample", {"count": len(off2)}, phase="backward2"))
     if S_ref is not None:
         g2r = torch.autograd.grad(S_ref, used, allow_unused=True)
     else:
@@ -594,6 +620,6 @@ def run_case(cfg):
         worst = max(worst, e / tol2)
         if not e <= tol2:
             viol.append(V("grad-mismatch:%s-param:order2" % role, {"wrt": lab, "observed": rnd(gv, 12), "reference": rnd(refv, 12),
-                                                                  "tol": tol2}, wrt=lab))
+                                                                  "tol": tol2}, wrt=lab, off_sample=off_sample))
     obs["r2"] = rnd(worst, 2)
     return {"viol": viol, "obs": obs, "status": "violation" if viol else "ok", "n": nexec}
